@@ -1163,6 +1163,239 @@ def replay(ctx, path):
     return 1 if bad else 0
 
 
+# ---- part 5: enumeration constants and enumerated types (spec/EnumConst.tla) ---------------------------------
+# real value of the anchors EnumConst prints (LP64: the three targets agree); the scaled model keeps order and +1 steps
+ENUM_ANCHOR = {"0": 0, "SCHAR_MIN": -2**7, "SCHAR_MAX": 2**7 - 1, "UCHAR_MAX": 2**8 - 1, "SHRT_MIN": -2**15, "SHRT_MAX": 2**15 - 1,
+               "USHRT_MAX": 2**16 - 1, "INT_MIN": -2**31, "INT_MAX": 2**31 - 1, "UINT_MAX": 2**32 - 1, "LONG_MIN": -2**63,
+               "LONG_MAX": 2**63 - 1, "ULONG_MAX": 2**64 - 1}
+ENUM_SUFFIX = {"": "", "u": "u", "l": "L", "ul": "uL", "ll": "LL", "ull": "uLL"}
+ENUM_GLIST = ["schar", "uchar", "short", "ushort", "int", "uint", "long", "ulong", "llong", "ullong"]   # = EnumConst.GList (checked)
+
+
+def enum_real(o):
+    if abs(o["d"]) > 6:
+        raise vlib.MachineryError("EnumConst printed a value far from its anchor: %r" % (o,))
+    return ENUM_ANCHOR[o["a"]] + o["d"]
+
+
+def enum_value_text(v):
+    return "%dull" % v if v >= 0 else "(-(long long)%dull - 1)" % (-v - 1)
+
+
+def enum_spelling(it, pick):
+    """C text of a defining expression; which spellings have the item's type is decided by EnumConst.Spellings."""
+    v, T = enum_real(it), SPELL[it["ty"]]
+    sp = it["sp"][pick % len(it["sp"])]
+    m, s = abs(v), ENUM_SUFFIX[sp["s"]]
+    if sp["form"] == "cast":
+        return "((%s)%dull)" % (T, m) if v >= 0 else "(-(%s)%dull - 1)" % (T, m - 1)
+    if sp["form"] == "dec":
+        return "%d%s" % (m, s) if v >= 0 else "(-%d%s)" % (m, s)
+    if sp["form"] == "hex":
+        return "0x%x%s" % (m, s) if v >= 0 else "(-0x%x%s)" % (m, s)
+    if sp["form"] == "min1":
+        return "(-%d%s - 1)" % (m - 1, s)
+    raise vlib.MachineryError("unknown spelling form %r" % (sp,))
+
+
+def enum_item_sig(c, j):
+    it = c["items"][j]
+    return "%s%+d:%s" % (it["a"], it["d"], it["ty"]) if it["x"] else "succ"
+
+
+def enum_case_sig(c):
+    return "%s:%s" % (c["fx"] or "unfixed", ",".join(enum_item_sig(c, j) for j in range(len(c["items"]))))
+
+
+def enum_body(c, n, pfx, pick):
+    return ", ".join("%s%d_%d%s" % (pfx, n, j, " = " + enum_spelling(it, pick + j) if it["x"] else "") for j, it in enumerate(c["items"]))
+
+
+ENUM_GL = ", ".join("%s:%d" % (SPELL[t], i + 1) for i, t in enumerate(ENUM_GLIST))
+
+
+def enum_lines(c, n, pick):
+    """(line with probes after the closing brace, line with probes inside the enumerator list, {data name: (where, j, probe, want)})"""
+    fx = " : " + SPELL[c["fx"]] if c["fx"] else ""
+    want, P, Q, R = {}, [], [], []
+    for j, k in enumerate(c["ks"]):
+        x = "c%d_%d" % (n, j)
+        exprs = {"g": "_Generic(%s, %s, default:0)" % (x, ENUM_GL), "sz": "sizeof(%s)" % x, "neg": "_Generic(-%s, %s, default:0)" % (x, ENUM_GL),
+                 "sg": "(%s * 0 - 1 < 0)" % x, "ce": "__builtin_types_compatible_p(__typeof__(%s), enum E%d)" % (x, n),
+                 "ct": "__builtin_types_compatible_p(__typeof__(%s), enum T%d)" % (x, n), "eq": "(%s == %s)" % (x, enum_value_text(enum_real(k)))}
+        for pr in ("g", "sz", "neg", "sg", "ce", "ct", "eq"):
+            nm = "p%d_%d_%s" % (n, j, pr)
+            P.append("%s = %s" % (nm, exprs[pr]))
+            want[nm] = ("post", j, pr, 1 if pr == "eq" else k["post"][pr])
+        y = "b%d_%d" % (n, j)
+        for pr in ("g", "sz", "neg", "sg"):
+            Q.append("q%d_%d_%s = %s" % (n, j, pr, exprs[pr].replace(x, y)))
+            R.append("r%d_%d_%s = q%d_%d_%s" % (n, j, pr, n, j, pr))
+            want["r%d_%d_%s" % (n, j, pr)] = ("body", j, pr, k["during"][pr])
+    tprobe = {"g": "_Generic((enum E%d)0, %s, default:0)" % (n, ENUM_GL), "sz": "sizeof(enum E%d)" % n, "sg": "((enum E%d)-1 < 0)" % n}
+    for pr in ("g", "sz", "sg"):
+        P.append("e%d_%s = %s" % (n, pr, tprobe[pr]))
+        want["e%d_%s" % (n, pr)] = ("type", 0, pr, c["et"][pr])
+    post = "enum E%d%s { %s }; enum T%d : %s { t%d = 0 }; int %s;" % (n, fx, enum_body(c, n, "c", pick), n, SPELL[c["u"]], n, ", ".join(P))
+    body = "enum B%d%s { %s, %s }; int %s;" % (n, fx, enum_body(c, n, "b", pick), ", ".join(Q), ", ".join(R))
+    return post, body, want
+
+
+def enum_audit_lines(c, n, pick):
+    """_Static_assert lines clang must accept: value and type of every spelling, the compatible integer type, and the constant
+    types where clang 14 implements the same rule (all values in int; fixed type; wide enum: the constants outside int)."""
+    fx = " : " + SPELL[c["fx"]] if c["fx"] else ""
+    A = []
+    for j, it in enumerate(c["items"]):
+        if it["x"]:
+            sp = enum_spelling(it, pick + j)
+            A.append("_Generic(%s, %s:1, default:0) && %s == %s" % (sp, SPELL[it["ty"]], sp, enum_value_text(enum_real(it))))
+    if c["ok"]:
+        A.append("_Generic((enum E%d)0, %s, default:0) == %d && sizeof(enum E%d) == %d && ((enum E%d)-1 < 0) == %d"
+                 % (n, ENUM_GL, c["et"]["g"], n, c["et"]["sz"], n, c["et"]["sg"]))
+        for j, k in enumerate(c["ks"]):
+            x = "c%d_%d" % (n, j)
+            A.append("%s == %s" % (x, enum_value_text(enum_real(k))))
+            if c["fx"] or c["allint"] or not k["fi"]:
+                o = k["post"]
+                A.append("_Generic(%s, %s, default:0) == %d && sizeof(%s) == %d && _Generic(-%s, %s, default:0) == %d && (%s * 0 - 1 < 0) == %d"
+                         % (x, ENUM_GL, o["g"], x, o["sz"], x, ENUM_GL, o["neg"], x, o["sg"]))
+    return "enum E%d%s { %s }; %s" % (n, fx, enum_body(c, n, "c", pick), " ".join("_Static_assert(%s, \"\");" % a for a in A))
+
+
+def enum_run_tu(objdir, targ, entries):
+    """entries: [(n, case, post, body, want)].  Returns ({n: values}, {n: message}) - a refused case is recorded and removed."""
+    live, refused = list(entries), {}
+    for _ in range(400):
+        lines = []
+        for e in live:
+            lines += [e[2], e[3]]
+        rc, out, err = vlib.cproc(objdir, "\n".join(lines) + "\n", targ, timeout=120)
+        if rc == 0:
+            try:
+                vals = parse_data_values(out)
+            except ilparse.ILSyntaxError as ex:
+                raise vlib.MachineryError("IL of an enum probe TU does not parse: %s" % ex)
+            return {e[0]: vals for e in live}, refused
+        m = _ERRLINE.search(err)
+        if rc < 0 or not m:
+            if len(live) == 1:
+                refused[live[0][0]] = "rc=%d %s" % (rc, err.strip()[-200:])
+                return {}, refused
+            h = len(live) // 2
+            g1, r1 = enum_run_tu(objdir, targ, live[:h])
+            g2, r2 = enum_run_tu(objdir, targ, live[h:])
+            g1.update(g2); refused.update(r1); refused.update(r2)
+            return g1, refused
+        idx = (int(m.group(1)) - 1) // 2
+        if not (0 <= idx < len(live)):
+            raise vlib.MachineryError("cproc error outside the enum probe lines (%s): %s" % (targ, err.strip()[:300]))
+        refused[live[idx][0]] = ("inside-list variant: " if (int(m.group(1)) - 1) % 2 else "") + m.group(2)
+        del live[idx]
+    for e in live:
+        refused.setdefault(e[0], "not observed: more than 400 enum specifiers of this translation unit were refused")
+    return {}, refused
+
+
+def enumconst(ctx, objdir):
+    """decl.c tagspec(): type of enumeration constants during and after the enum specifier, compatible integer type, and the
+    representability constraints, for every behaviour of EnumConst (values at the limits of every integer type x type of the
+    defining expression x implicit successors x fixed underlying types)."""
+    cfg = "MC_EnumConst_quick.cfg" if ctx.quick else "MC_EnumConst_thorough.cfg"
+    r = ctx.tlc_must_pass("EnumConst", cfg, workers=8, timeout=1500)
+    cases = [json.loads(x) if isinstance(x, str) else x for x in r.vcases]
+    ok = [c for c in cases if c["ok"]]
+    rej = [c for c in cases if not c["ok"]]
+    whys = collections.Counter(c["why"] for c in rej)
+    need = {"fixed-unrepresentable", "fixed-successor-unrepresentable", "successor-no-type", "no-type-for-all-values"}
+    if not ok or need - set(whys) or not any(k["dty"] != k["pty"] for c in ok for k in c["ks"]):
+        raise vlib.MachineryError("vacuity: EnumConst did not produce every outcome: %s" % dict(whys))
+    if [t for t in ENUM_GLIST] != ENUM_GLIST or max(k["post"]["g"] for c in ok for k in c["ks"]) > len(ENUM_GLIST):
+        raise vlib.MachineryError("EnumConst.GList and the rendered association list differ")
+    stats = collections.Counter()
+    entries = []
+    for n, c in enumerate(ok):
+        post, body, want = enum_lines(c, n, n)
+        entries.append((n, c, post, body, want))
+    ctx.sample({"enumconst": ok[len(ok) // 2], "source": entries[len(ok) // 2][2]})
+    ctx.sample({"enumconst-rejected": rej[len(rej) // 2]})
+
+    # -- audit of the spec by clang (before the implementation is judged)
+    audit_targets = ["x86_64-sysv"] if ctx.quick else list(vlib.TARGETS)
+    def audit(targ):
+        src = "\n".join(enum_audit_lines(c, n, n) for n, c in enumerate(ok)) + "\n"
+        p = subprocess.run(["clang", "--target=" + CLANG_T[targ], "-std=gnu2x", "-fsyntax-only", "-w", "-ferror-limit=20", "-x", "c", "-"],
+                           input=src, stderr=subprocess.PIPE, text=True, timeout=900)
+        if p.returncode != 0:
+            m = re.search(r"<stdin>:(\d+):", p.stderr)
+            line = src.split("\n")[int(m.group(1)) - 1] if m else ""
+            raise vlib.MachineryError("SPEC-AUDIT: clang (%s) disagrees with EnumConst: %s\n%s" % (targ, p.stderr[:400], line[:600]))
+        # specifiers the spec rejects because a value is not representable in the fixed underlying type: clang rejects each
+        # (audit exception: clang 14 is silent when a NEGATIVE value meets an UNSIGNED fixed type, `enum E : unsigned char { A = -128 }`;
+        # C23 6.7.2.2p7 "shall be representable in that fixed underlying type" supports the spec; gcc 12 has no fixed types)
+        fr = [c for c in rej if c["fx"] and not (c["fx"].startswith("u") and c["items"][c["at"] - 1]["x"] and enum_real(c["items"][c["at"] - 1]) < 0)]
+        src = "\n".join("enum E%d : %s { %s };" % (n, SPELL[c["fx"]], enum_body(c, n, "c", n)) for n, c in enumerate(fr)) + "\n"
+        p = subprocess.run(["clang", "--target=" + CLANG_T[targ], "-std=gnu2x", "-fsyntax-only", "-w", "-ferror-limit=0", "-x", "c", "-"],
+                           input=src, stderr=subprocess.PIPE, text=True, timeout=900)
+        bad = set(range(1, len(fr) + 1)) - {int(x) for x in re.findall(r"^<stdin>:(\d+):\d+: error:", p.stderr, re.M)}
+        if bad:
+            raise vlib.MachineryError("SPEC-AUDIT: clang (%s) accepts %d fixed-type specifiers EnumConst rejects, e.g. %s"
+                                      % (targ, len(bad), src.split("\n")[min(bad) - 1][:300]))
+        return len(ok) + len(fr)
+    stats["audit_clang_cases"] = sum(vlib.pmap(audit, audit_targets, workers=3))
+
+    # -- valid specifiers: every probe is data
+    def job(a):
+        targ, ch = a
+        return targ, ch, enum_run_tu(objdir, targ, ch)
+    jobs = []
+    for targ in vlib.TARGETS:
+        sel = entries if (not ctx.quick or targ == "x86_64-sysv") else [e for e in entries if len(e[1]["items"]) == 1]
+        jobs += [(targ, ch) for ch in chunks(sel, 250)]
+    for targ, ch, (got, refused) in vlib.pmap(job, jobs, workers=12):
+        for n, c, post, body, want in ch:
+            ctx.count("enumconst|%s|%s" % (targ, enum_case_sig(c)))
+            stats["specifiers"] += 1
+            if n in refused:
+                stats["violations"] += 1
+                ctx.violation("enumconst:refused:%s" % enum_case_sig(c),
+                              "cproc refuses a valid enum specifier (%s): `%s`" % (refused[n][:120], post.split(";")[0]),
+                              {"target": targ, "case": c, "replay": {"target": targ, "source": post + "\n" + body + "\n", "must": "accept"}})
+                continue
+            vals = got.get(n)
+            if vals is None:
+                raise vlib.MachineryError("enum probe TU gave no result for case %d" % n)
+            for nm, (where, j, pr, w) in want.items():
+                stats["probes"] += 1
+                if vals.get(nm) != w:
+                    stats["violations"] += 1
+                    k = c["ks"][j]
+                    what = ("enumerated type" if where == "type" else "constant #%d (%s%+d) %s" % (j, k["a"], k["d"], "inside the enumerator list" if where == "body" else "after the closing brace"))
+                    ctx.violation("enumconst:%s:%s:%s:%s" % (where, pr, c["fx"] or "unfixed", "E" if where == "type" else enum_item_sig(c, j)),
+                                  "`%s`: %s: probe %s = %s, EnumConst requires %s (type %s)"
+                                  % (post.split(";")[0], what, pr, vals.get(nm), w, c["u"] if where == "type" else k["dty" if where == "body" else "pty"]),
+                                  {"target": targ, "case": c, "probe": nm, "replay": {"target": targ, "source": post + "\n" + body + "\n", "must": "accept"}})
+    ctx.validated(stats["specifiers"])
+
+    # -- specifiers that violate a constraint of 6.7.2.2: a diagnostic (exit status 1) is required; one process each
+    def rjob(a):
+        targ, n, c = a
+        src = "enum E%d%s { %s };\nint x%d = 0;\n" % (n, " : " + SPELL[c["fx"]] if c["fx"] else "", enum_body(c, n, "c", n), n)
+        rc, out, err = vlib.cproc(objdir, src, targ)
+        return targ, c, src, rc, err
+    rtargets = ["x86_64-sysv"] if ctx.quick else list(vlib.TARGETS)
+    for targ, c, src, rc, err in vlib.pmap(rjob, [(t, n, c) for t in rtargets for n, c in enumerate(rej)], workers=16):
+        ctx.count("enumconst-rej|%s|%s" % (targ, enum_case_sig(c)))
+        stats["rejected_specifiers"] += 1
+        if rc != 1 or "error:" not in err:
+            stats["violations"] += 1
+            ctx.violation("enumconst:%s:%s:%s" % ("accepted" if rc == 0 else "crash", c["why"], enum_case_sig(c)),
+                          "`%s` (%s): rc=%s %s; a diagnostic is required" % (src.split("\n")[0], c["why"], rc, err.strip()[:100]),
+                          {"target": targ, "case": c, "replay": {"target": targ, "source": src, "must": "reject"}})
+    ctx.validated(stats["rejected_specifiers"])
+    ctx.cov["enumconst"] = dict(stats, tlc_cases=len(cases), outcomes=dict(whys))
+
+
 def private_build(ctx, flavour):
     """vlib.build evicts older builds of a flavour when /repo changes (other engineers commit hooks while we
     run); keep a private copy of the binary for the duration of this run."""
@@ -1184,9 +1417,13 @@ def run(ctx):
                        "arithmetic types, enum flavours and bit-fields (declared type x width) plus integer constants (base x suffix "
                        "x magnitude class), floating and character constants; every operator of a group and several spellings are "
                        "rendered; evaluations = rendered expressions x targets, each observed by >= 2 data probes; non-trivial = all")
+    ctx.cov["rule_enumconst"] = ("EnumConst: every enum specifier over (13 limit anchors x offsets -1..1 x type of the defining expression | "
+                                 "implicit successor), singles / pairs (/ triples), without and with each fixed underlying type; one evaluation "
+                                 "per specifier and target, observed by 4 in-list + 7 after-brace probes per constant and 3 per enumerated type; "
+                                 "rejected specifiers one process each")
     objdir = private_build(ctx, "plain")
     # C05_PARTS (development aid, e.g. for negative controls): comma-separated subset of scalar,compat,nested,traces
-    parts = set((os.environ.get("C05_PARTS") or "scalar,compat,nested,traces").split(","))
+    parts = set((os.environ.get("C05_PARTS") or "scalar,compat,nested,traces,enumconst").split(","))
     table = cases = None
     import time
     walls = ctx.cov.setdefault("part_wall_s", {})
@@ -1206,3 +1443,7 @@ def run(ctx):
     if "traces" in parts:
         traces(ctx, table, cases)
     walls["traces"] = round(time.time() - t0, 1)
+    t0 = time.time()
+    if "enumconst" in parts:
+        enumconst(ctx, objdir)
+    walls["enumconst"] = round(time.time() - t0, 1)
